@@ -63,6 +63,24 @@ Proof.
     injection E as E _. subst p'. cbn [BasePartition_block BasePartition_segment]. rewrite app_length, upd_len. cbn [length]. split; [lia|reflexivity].
 Qed.
 
+(* Partition::new(n), 1 <= n < 2^32: no panic; a well-formed partition with its block index (HopPart.fp_wf) *)
+Lemma g_fp_new_wf n : (1 <= n < 4294967296)%N ->
+  exists p, M_Partition_new n = Some p /\ fp_wf (N.to_nat n) (convfp p).
+Proof.
+  intros Hn. destruct (link_fp_new n ltac:(lia)) as (p & E & C). exists p. split; [exact E|]. rewrite C. apply fp_new_wf. lia.
+Qed.
+(* on a well-formed partition block_id never panics on an element and names the block that holds it *)
+Lemma g_fp_block_id n p x : fp_wf n (convfp p) -> N.to_nat x < n ->
+  exists b, M_Partition_block_id_fn p x = Some b /\ in_blk (fp_base (convfp p)) (N.to_nat b) (N.to_nat x).
+Proof.
+  intros W Hx.
+  assert (Hl : length (Partition_block_id p) = n).
+  { pose proof (fw_len _ _ W) as H. unfold convfp in H. cbn [fp_bid] in H. rewrite map_length in H. exact H. }
+  pose proof (link_fp_block_id_in p x ltac:(lia)) as L.
+  destruct (M_Partition_block_id_fn p x) as [b|]; [|discriminate L]. cbn [option_map] in L. injection L as L.
+  exists b. split; [reflexivity|]. rewrite L. apply (fp_in_blk_iff n _ _ _ W). split; [exact Hx|reflexivity].
+Qed.
+
 Example g_example_basepart :
   option_map convbp (M_BasePartition_new 3%N) = Some {| bp_block := [(0, 0); (0, 3)]; bp_seg := [0; 1; 2] |} /\
   (do p <- M_BasePartition_new 3%N; do r <- M_BasePartition_split_block p 1%N 2; M_BasePartition_slice (fst r) 2%N) = Some [2%N] /\
